@@ -135,11 +135,13 @@ def run_command(ctx, step):
     sys.stdout.flush()
     sys.stderr.flush()
     hs = step.get("hashseed")
-    fresh = hs is not None and str(hs) != os.environ.get("PYTHONHASHSEED")
+    fresh = (hs is not None and str(hs) != os.environ.get("PYTHONHASHSEED")) or bool(step.get("env"))
     if fresh:
-        # a new interpreter with its own string-hash seed, like a second invocation of the real CLI
+        # a new interpreter with its own string-hash seed, like a second invocation of the real CLI; step["env"] adds
+        # the user's environment (locale ...), which only a new interpreter picks up
         import subprocess
-        env = dict(os.environ, PYTHONHASHSEED=str(hs))
+        env = dict(os.environ, PYTHONHASHSEED=str(hs if hs is not None else os.environ.get("PYTHONHASHSEED", "0")))
+        env.update(step.get("env") or {})
         proc = subprocess.Popen([sys.executable, "-m", "rsim.stepchild", str(wfd)], pass_fds=[wfd], env=env,
                                 stdin=subprocess.PIPE, stdout=subprocess.DEVNULL, stderr=subprocess.PIPE,
                                 cwd=os.path.dirname(os.path.dirname(os.path.abspath(__file__))), start_new_session=True)
